@@ -120,7 +120,7 @@ def run(pid, tier, seed, replay=None):
              ("noreflection", seed + 2, 120 if quick else 1500, 5), ("mixed", seed + 3, 200 if quick else 3000, 8),
              ("shapes", seed + 4, 60 if quick else 800, 6)]
     if pid == "C02":
-        plans.append(("scale", seed + 6, 2 if quick else 30, 6))     # several hundred Items per document
+        plans.append(("scale", seed + 6, 10 if quick else 200, 6))     # several hundred Items per document
     for mode, sd, count, maxi in plans:
         raw = os.path.join(OUT, "%s_xml_%s.ndjson" % (pid, mode))
         tok = raw + ".tok"
